@@ -507,7 +507,7 @@ func c11Reset(f []string) (*c11Net, string) {
 	}
 	n, err1 := strconv.Atoi(f[1])
 	mh, err2 := strconv.Atoi(f[2])
-	if err1 != nil || err2 != nil || n < 1 || n > 16 || len(f) != 3+n {
+	if err1 != nil || err2 != nil || n < 1 || n > 24 || len(f) != 3+n {
 		return nil, "r=bad"
 	}
 	locs := make([][]c11Loc, n)
@@ -555,7 +555,7 @@ func init() {
 
 // ---------------------------------------------------------------------------------- generator
 
-func c11Topology(r *rng, n int) [][2]int {
+func c11Topology(r *rng, n int, kind int) [][2]int {
 	var es [][2]int
 	has := map[[2]int]bool{}
 	add := func(a, b int) {
@@ -578,7 +578,10 @@ func c11Topology(r *rng, n int) [][2]int {
 		j := r.intn(i + 1)
 		perm[i], perm[j] = perm[j], perm[i]
 	}
-	switch r.intn(6) {
+	if kind < 0 {
+		kind = r.intn(6)
+	}
+	switch kind {
 	case 0: // chain
 		for i := 0; i+1 < n; i++ {
 			add(perm[i], perm[i+1])
@@ -660,17 +663,68 @@ func c11GenProfile(w *bufio.Writer, seed int64, tier string, prof string) {
 		if r.chance(50) && n > 4 {
 			n = 3 + r.intn(2)
 		}
-		mh := 0
-		if r.chance(35) {
-			mh = r.pick(1, 2, 2, 3, 3, 4, 16)
+		g := c11CaseCfg{n: n, steps: steps + r.intn(steps), eagerPct: 60, replayPct: 4, topo: -1}
+		if r.chance(4) { // rare: big mesh / long chain (paths of 8-20 hops), long history on re-used state
+			g.n = 9 + r.intn(12)
+			g.steps = 4 * steps
+			if r.chance(60) {
+				g.topo = r.pick(0, 0, 1)
+			}
+		} else if r.chance(6) { // long history on a small mesh: many reconnect/expiry/redelivery rounds
+			g.steps = 6 * steps
 		}
-		c11GenCase(w, r, n, mh, steps+r.intn(steps))
+		switch prof {
+		case "c11":
+			if r.chance(30) {
+				g.mh = r.pick(1, 2, 2, 3, 3, 4, 16)
+			}
+		case "c12":
+			if r.chance(45) {
+				g.clean = true
+			} else if r.chance(15) {
+				g.mh = r.pick(2, 3, 16)
+			}
+		case "c13":
+			g.eagerPct, g.replayPct = 50, 6
+			if r.chance(10) {
+				g.mh = r.pick(3, 4, 16)
+			}
+		case "c14":
+			g.eagerPct, g.replayPct = 25, 12
+		case "c15":
+			// chains / rings / meshes longer than the limit
+			g.mh = r.pick(1, 1, 2, 2, 3, 3, 4)
+			if r.chance(10) || (tier == "thorough" && r.chance(20)) {
+				g.mh = r.pick(5, 8, 16)
+			}
+			g.n = g.mh + 1 + r.intn(4)
+			if g.n > 22 {
+				g.n = 22
+			}
+			if r.chance(55) {
+				g.topo = 0 // chain
+			} else if r.chance(50) {
+				g.topo = 1 // ring
+			}
+			if r.chance(10) {
+				g.mh = 0
+			}
+		}
+		c11GenCase(w, r, g)
 	}
 }
 
-func c11GenCase(w *bufio.Writer, r *rng, n, mh, steps int) {
+type c11CaseCfg struct {
+	n, mh, steps        int
+	eagerPct, replayPct int
+	topo                int  // -1 random, else c11Topology kind
+	clean               bool // convergence case: see convergeChecks in MM/Model/C11Wire.lean
+}
+
+func c11GenCase(w *bufio.Writer, r *rng, g c11CaseCfg) {
+	n := g.n
 	locs := c11GenLocs(r, n)
-	head := fmt.Sprintf("reset %d %d %s", n, mh, strings.Join(locs, " "))
+	head := fmt.Sprintf("reset %d %d %s", n, g.mh, strings.Join(locs, " "))
 	nw, _ := c11Reset(fields(head))
 	defer nw.stop()
 	fmt.Fprintln(w, head)
@@ -679,7 +733,7 @@ func c11GenCase(w *bufio.Writer, r *rng, n, mh, steps int) {
 		fmt.Fprintln(w, line)
 		nw.apply(fields(line))
 	}
-	pending := c11Topology(r, n)
+	pending := c11Topology(r, n, g.topo)
 	bringUp := func() {
 		e := pending[0]
 		pending = pending[1:]
@@ -688,29 +742,42 @@ func c11GenCase(w *bufio.Writer, r *rng, n, mh, steps int) {
 			a, b = b, a
 		}
 		emit("connect %d %d", a, b)
-		if r.chance(92) {
+		if g.clean || r.chance(92) {
 			emit("replay %d %d", a, b)
 		}
-		if r.chance(92) {
+		if g.clean || r.chance(92) {
 			emit("replay %d %d", b, a)
 		}
 	}
-	eager := r.chance(60) // bring the whole topology up first
-	if eager {
+	if g.clean || r.chance(g.eagerPct) { // bring the whole topology up before any delivery
 		for len(pending) > 0 {
 			bringUp()
 		}
 	}
-	for s := 0; s < steps; s++ {
-		var nonEmpty [][2]int
+	nonEmptyLinks := func() [][2]int {
+		var ne [][2]int
 		for a := 0; a < n; a++ {
 			for _, b := range nw.peers(a) {
 				if len(nw.q[[2]int{a, b}]) > 0 {
-					nonEmpty = append(nonEmpty, [2]int{a, b})
+					ne = append(ne, [2]int{a, b})
 				}
 			}
 		}
+		return ne
+	}
+	for s := 0; s < g.steps; s++ {
+		nonEmpty := nonEmptyLinks()
 		x := r.intn(100)
+		if g.clean { // only deliveries, duplicates and announcements
+			switch {
+			case x < 75 && len(nonEmpty) > 0:
+				x = 20
+			case x < 85 && len(nonEmpty) > 0:
+				x = 72
+			default:
+				x = 80
+			}
+		}
 		switch {
 		case len(pending) > 0 && (x < 12 || len(nw.links) == 0):
 			bringUp()
@@ -738,7 +805,7 @@ func c11GenCase(w *bufio.Writer, r *rng, n, mh, steps int) {
 			} else {
 				emit("expire %d %d %d", a, r.intn(n), 1+r.intn(6))
 			}
-		case x < 95 && len(nw.links) > 0:
+		case x < 91+g.replayPct && len(nw.links) > 0:
 			a := r.intn(n)
 			if ps := nw.peers(a); len(ps) > 0 {
 				emit("replay %d %d", a, ps[r.intn(len(ps))])
@@ -756,21 +823,24 @@ func c11GenCase(w *bufio.Writer, r *rng, n, mh, steps int) {
 			}
 		}
 	}
-	// drain: run to quiescence in FIFO order (bounded), then show everything
-	for k := 0; k < 400; k++ {
-		done := true
-		for a := 0; a < n && done; a++ {
-			for _, b := range nw.peers(a) {
-				if len(nw.q[[2]int{a, b}]) > 0 {
-					emit("deliver %d %d 0", a, b)
-					done = false
-					break
-				}
-			}
-		}
-		if done {
-			break
+	if g.clean {
+		for a := 0; a < n; a++ {
+			emit("announce %d", a)
 		}
 	}
-	emit("dump")
+	// drain: run to quiescence in FIFO order (bounded), then show everything
+	drained := false
+	for k := 0; k < 3000; k++ {
+		ne := nonEmptyLinks()
+		if len(ne) == 0 {
+			drained = true
+			break
+		}
+		emit("deliver %d %d 0", ne[0][0], ne[0][1])
+	}
+	if g.clean && drained {
+		emit("dump converged")
+	} else {
+		emit("dump")
+	}
 }
